@@ -96,7 +96,7 @@ def strategy(tier):
 
 
 def budget(tier):
-    return 3000 if tier == "quick" else 120000
+    return 3000 if tier == "quick" else 40000
 
 
 def _depth(t):
